@@ -480,3 +480,6 @@ func C12_RespondAnyState() {
 
 func C13_GenesisWithdrawAddrs() { focus = "C13"; sceneGenesisWithdrawAddrs() }
 func C19_GenesisWithdrawAddrs() { focus = "C19"; sceneGenesisWithdrawAddrs() }
+
+func C15_ExpirySlash() { focus = "C15"; sceneExpiry(exSlash) }
+func C19_ExpirySlash() { focus = "C19"; sceneExpiry(exSlash) }
